@@ -96,6 +96,20 @@ def call_builtin(ex, name, args, kw, st, where, env):
     if name == "isinstance":
         yield isinstance_(ex, args[0], args[1]), st
         return
+    if name == "getattr" and len(args) == 2 and isinstance(args[0], Sym) and isinstance(args[0].ty, (AbstractTy, OptTy)) \
+            and isinstance(args[1], Sym) and args[1].ty is StrT:
+        # getattr(obj, name) with a symbolic attribute name on an abstract object: an uninterpreted function of the
+        # object and the name (AttributeError not modelled: the caller names an attribute its items carry)
+        obj = args[0]
+        if isinstance(obj.ty, OptTy):
+            st_ok, raises = ex.guard(st, v_not(v_is_none(obj)), "AttributeError", where)
+            yield from raises
+            if st_ok is None:
+                return
+            obj, st = v_unwrap(obj), st_ok
+        ex.iface_used.add("getattr(item, step_attr_name) is a function of the item and the name; the attribute exists")
+        yield ex.uf_apply("getattr_dyn", [obj, args[1]], AbstractTy("StepValue")), st
+        return
     if name == "hasattr":
         yield hasattr_(ex, args[0], args[1]), st
         return
